@@ -227,7 +227,7 @@ func entLive(v J, now int64) bool {
 }
 
 // compareState checks the observed state against the spec's (live part of the) expected state.
-func compareState(exp J, obs ObsState, ctx *MatchCtx, rel, tol map[string]bool) string {
+func compareState(exp J, obs ObsState, ctx *MatchCtx, dm *deadlineModes) string {
 	now := jInt(exp["now"])
 	want := map[int]map[string]J{}
 	for _, e := range jList(exp["ents"]) {
@@ -248,7 +248,7 @@ func compareState(exp J, obs ObsState, ctx *MatchCtx, rel, tol map[string]bool) 
 			if !ok {
 				return fmt.Sprintf("db%d key %q: expected absent, observed %s", db, k, ov)
 			}
-			if d := diffVal(w, ov, ctx, rel[k], tol[k]); d != "" {
+			if d := diffVal(w, ov, ctx, dm.mode(k, jInt(w["exp"]))); d != "" {
 				return fmt.Sprintf("db%d key %q: %s", db, k, d)
 			}
 		}
@@ -268,7 +268,40 @@ func expValString(w J) string {
 	return string(b)
 }
 
-func diffVal(w J, ov *ObsVal, ctx *MatchCtx, rel, tol bool) string {
+// deadlineModes remembers how each deadline of the expected state came about (see deadlineOk): a step
+// flags the keys whose deadline it set relative to the server clock ("rel") or in whole seconds ("sec");
+// the flag stays with the deadline value while later steps leave it alone or move it to another key.
+type deadlineModes struct {
+	byValue map[int64]string
+}
+
+func (dm *deadlineModes) note(e J) {
+	post := e["post"].(J)
+	flag := func(keys map[string]bool, mode string) {
+		for _, en := range jList(post["ents"]) {
+			ent := en.(J)
+			if keys[string(jBytes(ent["k"]))] {
+				if x := jInt(ent["v"].(J)["exp"]); x != 0 {
+					dm.byValue[x] = mode
+				}
+			}
+		}
+	}
+	flag(keySet(e["rel"]), "rel")
+	flag(keySet(e["tol"]), "sec")
+}
+
+func (dm *deadlineModes) mode(key string, exp int64) string {
+	if dm == nil {
+		return "abs"
+	}
+	if m, ok := dm.byValue[exp]; ok {
+		return m
+	}
+	return "abs"
+}
+
+func diffVal(w J, ov *ObsVal, ctx *MatchCtx, mode string) string {
 	if ov.Note != "" {
 		return "inconsistent observers: " + ov.Note
 	}
@@ -322,12 +355,6 @@ func diffVal(w J, ov *ObsVal, ctx *MatchCtx, rel, tol bool) string {
 	} else {
 		if ov.ExpMs < 0 {
 			return fmt.Sprintf("expected deadline (model %d), observed no expiry", e)
-		}
-		mode := "abs"
-		if rel {
-			mode = "rel"
-		} else if tol {
-			mode = "sec"
 		}
 		if !deadlineOk(mode, ctx.absMs(e), ov.ExpMs, ctx, false) {
 			return fmt.Sprintf("expected deadline %d ms (model %d, %s), observed %d ms (delta %d)", ctx.absMs(e), e, mode, ov.ExpMs, ov.ExpMs-ctx.absMs(e))
@@ -594,7 +621,9 @@ func (w *worker) runCase(cs J) (res CaseResult) {
 		w.restart()
 		return st
 	}
-	if d := compareState(pre, ob, ctx, nil, nil); d != "" {
+	dm := &deadlineModes{byValue: map[int64]string{}}
+	ctx.Modes = dm
+	if d := compareState(pre, ob, ctx, dm); d != "" {
 		return fail(0, "loadfail", "state after load differs from pre-state: "+d)
 	}
 	prev := ob.String()
@@ -692,7 +721,8 @@ func (w *worker) runCase(cs J) (res CaseResult) {
 			if !matchReply(e["r"].(J), rep, ctx) {
 				return fmt.Sprintf("reply: expected %s, observed %s", expValString(e["r"].(J)), rep)
 			}
-			if d := compareState(e["post"].(J), ob, ctx, keySet(e["rel"]), keySet(e["tol"])); d != "" {
+			dm.note(e)
+			if d := compareState(e["post"].(J), ob, ctx, dm); d != "" {
 				return d
 			}
 			if i == len(steps)-1 {
